@@ -12,8 +12,8 @@ from ..sched import run_scheduled
 
 ID = "C04"
 LEVEL = "exploration"
-BUDGET = {"quick": 800, "thorough": 24000}
-SHARDS = {"quick": 8, "thorough": 16}
+BUDGET = {"quick": 1200, "thorough": 24000}
+SHARDS = {"quick": 16, "thorough": 16}
 RULE = (
     "Hypothesis-generated structured loops: body chain of 1-4 nodes carrying i; forms while (gate reads the carried variable), "
     "do-while (gate reads a flag produced by the last body node) and signal-synchronised (gate waits for the end-of-iteration "
